@@ -87,6 +87,14 @@ func (t *Union) Extend(x Type) error {
 	return t.Base.Extend(x)
 }
 
+func (t *Union) unextend() func() {
+	base, nm := t.Base.unextend(), len(t.Members)
+	return func() {
+		base()
+		t.Members = t.Members[:nm]
+	}
+}
+
 // Validate a type.
 func (t *Union) Validate(root *Root) (errs []error) {
 	// All members must be Objects and there must be at least one member.
